@@ -60,6 +60,7 @@ def decode_obs(op, raw):
             o["size"] = r.u64()
             o["iov_count"] = r.u64()
             o["storage_ok"] = r.u8()
+            o["fenced"] = r.u8()
     elif k == "write":
         o["avail"] = r.u64()
         o["ptr_off"] = r.i64()
@@ -170,6 +171,10 @@ def judge_history(ops, results, classes=None, counters=None):
             if not o["storage_ok"]:
                 viol.append(("bounds:r_buf_alloc:storage-fields-inconsistent", i, "buf_max == buf + size", o))
                 break
+            if o["fenced"] != 2:
+                viol.append(("HARNESS", i, None, "mapping fence not around both ring mappings (%d)" % o["fenced"]))
+                break
+            cnt("rings_with_guard_pages")
             m = RingModel(o["size"], op["mbs"])
             new_op = op
             round0 = op.get("round0")
@@ -505,11 +510,14 @@ def directed_histories():
 # ----------------------------------------------------------------------------
 # running
 # ----------------------------------------------------------------------------
+FENCE = ["-Wl,--wrap=mmap", "-Wl,--wrap=munmap"]   # guard pages around the library's mappings (driver)
+
+
 def build_specs(tier):
-    specs = [("asu-gcc", dict(name="c19_asu_gcc", sources=DRIVER, san="asu", cc="gcc", repo_sources=REPO_SRC))]
+    specs = [("asu-gcc", dict(name="c19_asu_gcc", sources=DRIVER, san="asu", cc="gcc", flags=FENCE, repo_sources=REPO_SRC))]
     if tier == "thorough":
-        specs.append(("asu-clang", dict(name="c19_asu_clang", sources=DRIVER, san="asu", cc="clang", repo_sources=REPO_SRC)))
-        specs.append(("vg-gcc", dict(name="c19_plain_gcc", sources=DRIVER, san="plain", cc="gcc", flags=["-O1", "-g"],
+        specs.append(("asu-clang", dict(name="c19_asu_clang", sources=DRIVER, san="asu", cc="clang", flags=FENCE, repo_sources=REPO_SRC)))
+        specs.append(("vg-gcc", dict(name="c19_plain_gcc", sources=DRIVER, san="plain", cc="gcc", flags=["-O1", "-g"] + FENCE,
                                      repo_sources=REPO_SRC)))
     return specs
 
